@@ -52,13 +52,18 @@ type Env struct {
 	st, old *State
 	oldNext *Term // `next` at function entry (for fresh())
 	lib     *SpecLib
-	resolve func(name string) *CV // fallback name resolution (SSA names)
+	resolve func(name string, cur *Env) *CV // fallback name resolution (SSA names, globals); cur = the environment doing the lookup
 	prog    *Program
 	unit    *Unit // when set, heap well-formedness facts of values loaded during evaluation are recorded here
 }
 
 // loaded: every reference stored in memory is below the allocation counter of that state (heap well-formedness).
 func (e *Env) loaded(v *Val) *Val {
+	for _, t := range flatten(v, nil) {
+		if t.hasB {
+			return v // depends on a bound variable: no ground fact to record
+		}
+	}
 	if e.unit != nil && e.st != nil && e.st.Next != nil {
 		e.unit.facts = append(e.unit.facts, validFacts(v, e.st.Next, nil)...)
 	}
@@ -76,7 +81,7 @@ func (e *Env) lookup(n string) *CV {
 		}
 	}
 	if e.resolve != nil {
-		return e.resolve(n)
+		return e.resolve(n, e)
 	}
 	return nil
 }
@@ -391,6 +396,16 @@ func (e *Env) sel(a *CV, name string) *CV {
 	}
 	v := a.V
 	t := v.T
+	switch name {
+	case "ref":
+		if v.K == VPtr || v.K == VSlice || v.K == VString || v.K == VIface {
+			return cvInt(v.Ref)
+		}
+	case "off":
+		if v.K == VPtr || v.K == VSlice || v.K == VString {
+			return cvInt(v.Off)
+		}
+	}
 	if p, ok := t.Underlying().(*types.Pointer); ok {
 		st, ok := p.Elem().Underlying().(*types.Struct)
 		if !ok {
@@ -728,6 +743,9 @@ func shiftCount(y *Term, w int) *Term {
 			}
 		}
 	}
+	if y.Op == "bvurem" && y.Args[1].Op == "bv" && y.Args[1].V.Sign() > 0 && y.Args[1].V.Cmp(big.NewInt(int64(w))) <= 0 {
+		return Extract(w-1, 0, y)
+	}
 	return Ite(BVCmp("bvuge", y, BVLit(uint64(w), w2)), BVLit(uint64(w), w), Extract(w-1, 0, y))
 }
 
@@ -882,6 +900,9 @@ func (e *Env) call(x *ECall) *CV {
 		return cvBool(Ge(a.V.Ref, e.oldNext))
 	case "freshornil":
 		a := arg(0)
+		if a.K != CVal || e.oldNext == nil {
+			efail("freshornil() needs a reference value and a pre-state")
+		}
 		r := a.V.Ref
 		return cvBool(Or(Ge(r, e.oldNext), Eq(r, IntLit(0))))
 	case "sameobj":
